@@ -9,6 +9,7 @@ Part 3: every computation that starts with the clip cannot distinguish a dataset
 -/
 import DPL.Model.Clip
 import DPL.Proofs.ClipLemmas
+import DPL.Proofs.ClipIR
 
 namespace DPL.C10
 open DPL DPL.ClipL
@@ -203,5 +204,54 @@ theorem plan_clip_invariant_norm {β : Type} (g : List (List ℝ) → β)
     (D D' : List (List ℝ)) (c : ℝ) (h : clipToNorm D c = .ok D') :
     (clipToNorm D c).map g = (clipToNorm D' c).map g := by
   rw [clip_norm_idem D D' c h, h]
+
+/-! ### static tie: "clipped before use" skeletons generated from the sources (`DPL/Generated/C10Clips.lean`) -/
+
+section static
+open DPL.ClipIR
+
+/-- What a decided obligation `clippedBeforeUse n data sk = true` of `DPL/Generated/C10Clips.lean` means.  For EVERY
+interpretation `S` of the operations of the skeleton in which the clip with the declared bounds is idempotent
+(`clipToBounds_idem`, `clip_norm_idem` above), re-arrangements commute with it, and the clip-invariant views (shape,
+dtype, NaN pattern) and the obligated callees do not distinguish an array from its clipped image: running the skeleton
+with the data variables bound to D and to clip(D) gives the same observations — the same inputs to every mechanism, the
+same released attributes, the same returned value, in the same order — takes the same branches and leaves the function
+at the same point. -/
+theorem static_clip_sound {V : Type} (S : Sem V) (hS : Lawful S) (n : Nat) (data : List Nat) (sk : Sk)
+    (h : clippedBeforeUse n data sk = true) (fuel : Nat) (env : Nat → V) :
+    (run S fuel sk ⟨env, [], false⟩).obs = (run S fuel sk ⟨clipData S data env, [], false⟩).obs ∧
+    (run S fuel sk ⟨env, [], false⟩).done = (run S fuel sk ⟨clipData S data env, [], false⟩).done := by
+  unfold clippedBeforeUse at h
+  obtain ⟨r, hr⟩ := Option.isSome_iff_exists.mp h
+  have := exec_sound S hS fuel sk (initAS n data) r ⟨env, [], false⟩ ⟨clipData S data env, [], false⟩ hr
+    ⟨rfl, rfl, rfl, R_init S n data env⟩
+  exact ⟨this.1, this.2.1⟩
+
+/-- the hypotheses on the interpretation are satisfiable by the model of `clip_to_bounds` itself: values = 1-d arrays,
+clip = `clip1 0 10` entrywise (idempotent by `clip_idem`), re-arrangement = reversal, view = the length -/
+example : Lawful (V := List Int)
+    { clipB := fun b v => if b = 0 then v.map (clip1 0 10) else v, sh := fun _ _ v => v.reverse,
+      view := fun _ v => [(v.length : Int)], op := fun _ vs => vs.flatten, cond := fun _ vs => vs.flatten.sum > 0 } where
+  idem v := by simp [clip_idem (0 : Int) 10 _ (by decide)]
+  sh_clip _ _ v := by simp [List.map_reverse]
+  view_clip _ v _ := by simp
+
+/-- non-vacuity (accepted): `a = clip(ravel(a), bounds); m = mean(a); use mech m; return` — the shape of `_mean` -/
+example : clippedBeforeUse 3 [0] (Sk.block [.atom (.reshape 1 0 0 []), .atom (.clip 0 1 0), .atom (.assign 2 0 [(0, .val)]),
+    .atom (.use .mech 0 [(2, .val), (0, .inv 0)]), .atom (.ret [(2, .val)])]) = true := by decide +kernel
+
+/-- non-vacuity (refused): the statistic is computed BEFORE the clip line -/
+example : clippedBeforeUse 3 [0] (Sk.block [.atom (.assign 2 0 [(0, .val)]), .atom (.clip 0 0 0),
+    .atom (.use .mech 0 [(2, .val)]), .atom (.ret [(2, .val)])]) = false := by decide +kernel
+
+/-- refused: clipped with other bounds than the declared ones; refused: the clip sits in one arm of a branch only
+(`fit_intercept=False` skips it); accepted: raw data handed to a callee with its own obligation -/
+example : clippedBeforeUse 2 [0] (Sk.block [.atom (.clip 0 0 7), .atom (.ret [(0, .val)])]) = false := by decide +kernel
+example : clippedBeforeUse 2 [0] (Sk.block [.branch 0 [(1, .val)] (.atom (.clip 0 0 0)) .skip,
+    .atom (.ret [(0, .val)])]) = false := by decide +kernel
+example : clippedBeforeUse 2 [0] (Sk.block [.atom (.assign 1 0 [(0, .deleg 3)]), .atom (.ret [(1, .val)])]) = true := by
+  decide +kernel
+
+end static
 
 end DPL.C10
